@@ -22,12 +22,12 @@ type rAction struct {
 }
 
 type rHandler struct {
-	id, typ      int
-	prio, inAdd  bool
-	active       bool
-	react        []rAction
-	unreg        func()
-	slot         int
+	id, typ     int
+	prio, inAdd bool
+	active      bool
+	react       []rAction
+	unreg       func()
+	slot        int
 }
 
 type rEvent struct{ typ, n int } // n = id*4 + depth
